@@ -789,3 +789,145 @@ from pyvc.contracts import REG as _REG
 _REG.add(public_poisson_test('conditional_likelihood_test', 'Poisson CL-Test', 'data', False))
 _REG.add(public_poisson_test('spatial_test', 'Poisson S-Test', 'spatial', True))
 _REG.add(public_poisson_test('magnitude_test', 'Poisson M-Test', 'magnitude', True))
+
+
+# ------------------------------------------------------------------ C06: seeded runs (explicit RNG state)
+from pyvc.models_sci import RNG0, SEEDED, RAND, POISSON_DRAW, RNG, rng_state, rng_advance
+
+
+@contract
+class PoissonSimulateCatalogRNG:
+    """_simulate_catalog drawing its own uniform numbers: same placement rule on the numbers of the current RNG state"""
+    qualname = PSIM
+    case = 'random_numbers=None (numbers drawn from numpy.random)'
+    properties = ('C06', 'C05')
+
+    def params(c):
+        K, n = c.int('K'), c.int('num_events')
+        c.ctx.assume(z3.And(K >= 1, n >= 0))
+        return dict(num_events=n, sampling_weights=c.arr('W', 'float64', n=K), sim_fore=c.arr('sim', 'float64', n=K),
+                    random_numbers=None, _st=RNG0)
+
+    def accepts(c, num_events, sampling_weights, sim_fore, random_numbers=None):
+        return random_numbers is None
+
+    def requires(c, num_events, sampling_weights, sim_fore, random_numbers=None, _st=None):
+        W = sampling_weights
+        K = W.shape[0]
+        i, j = z3.Ints('i!rq j!rq')
+        return [z3.ForAll([i, j], z3.Implies(z3.And(0 <= i, i <= j, j < to_z3(K)), W.f((i,)) <= W.f((j,))),
+                          patterns=ok_patterns([[W.f((i,)), W.f((j,))]])),
+                W.f((simp(to_z3(K) - 1),)) >= 1, to_z3(num_events) >= 0]
+
+    def result(c, num_events, sampling_weights, sim_fore, random_numbers=None):
+        st = rng_state(c.L)
+        c.ctx.ghost['psim_state'] = st
+        rng_advance(c.L)                      # one rand(num_events) call
+        fresh = c.L.fresh_arr('simcat', (sampling_weights.shape[0],), 'float64')
+        sim_fore.f = fresh.f
+        sim_fore.term, sim_fore.term_f = fresh.term, sim_fore.f
+        return sim_fore
+
+    def ensures(c, r, num_events, sampling_weights, sim_fore, random_numbers=None, _st=None):
+        W = sampling_weights
+        K, n = W.shape[0], num_events
+        st = _st if _st is not None else c.ctx.ghost.get('psim_state')
+        t = z3.Int('i!cnt')
+        if c.mode == 'assume':
+            k = c.ctx.fresh_int('k!q')
+            cnt = CNT(z3.Lambda([t], in_bin(W, k, RAND(st, t))), to_z3(n))
+            yield 'sim', z3.ForAll([k], z3.Implies(z3.And(0 <= k, k < to_z3(K)), to_real(r.f((k,))) == z3.ToReal(cnt)),
+                                   patterns=ok_patterns([r.f((k,))]))
+            return
+        yield 'returns the array passed in (reset, not reallocated)', z3.BoolVal(r is sim_fore)
+        yield 'exactly one block of uniform numbers is drawn', z3.BoolVal(c.ctx.ghost.get('rng_draws', 0) == 1)
+        k = c.ctx.fresh_int('k!sk')
+        ink = z3.And(0 <= k, k < to_z3(K))
+        val = to_real(r.f((k,)))
+        cn = find_app(val, 'CNT')
+        pred = lambda tt: in_bin(W, k, RAND(st, tt))
+        if cn is not None:
+            h = pointwise_count_hint(c, 'event t lands in bin k iff F(k-1) <= u_t < F(k)', cn, pred, n)
+            if h:
+                yield h[0], z3.Implies(ink, h[1]), h[2]
+        yield 'sim[k] == #{t : F(k-1) <= u_t < F(k)} for the numbers of the current RNG state', z3.Implies(
+            ink, val == z3.ToReal(CNT(z3.Lambda([t], pred(t)), to_z3(n))))
+        yield 'total number of simulated events', to_real(spec_sum(c, r)) == z3.ToReal(to_z3(n))
+
+
+PoissonSimulateCatalog.accepts = lambda c, num_events, sampling_weights, sim_fore, random_numbers=None: random_numbers is not None
+
+
+class PLTSeededLoop(LoopInv):
+    """seeded run: at loop entry the generator has been seeded with `seed`; every iteration simulates the prescribed number of
+    events (observed number, or one Poisson(expected count) draw) and appends one statistic"""
+    use_observed = True
+
+    def havoc(self, I, fr, i, it):
+        LLF = I.ctx.fresh_fun('sim_ll', z3.IntSort(), z3.RealSort())
+        fr.locals['simulated_ll'] = SymList(to_z3(i), lambda s: LLF(to_z3(s)), 'simulated_ll')
+        sim = fr.locals['sim_fore']
+        fresh = I.lib.fresh_arr('sim_havoc', sim.shape, 'float64')
+        sim.f = fresh.f
+        # the generator state after i iterations is a function of the state at loop entry and i
+        self.state_i = I.ctx.fresh('rng_at_iteration', RNG)
+        I.ctx.ghost['rng'] = self.state_i
+        I.ctx.ghost['loop_calls_from'] = len(I.ctx.ghost.get('calls', []))
+
+    def inv(self, I, fr, i, it):
+        lst = fr.locals['simulated_ll']
+        n_l = to_z3(lst.n) if isinstance(lst, SymList) else z3.IntVal(len(lst))
+        seed = fr.locals.get('seed')
+        if self.mode == 'prove' and simp(to_z3(i) == 0) is True and seed is not None:
+            yield 'the generator is seeded with `seed` before the first draw (every seed, including 0)', \
+                z3.BoolVal(rng_state(I.lib).eq(SEEDED(to_z3(seed))))
+        yield 'one simulated statistic per simulation done', n_l == to_z3(i)
+        if self.mode == 'prove' and simp(to_z3(i) == 0) is not True:
+            calls = [x for x in I.ctx.ghost.get('calls', [])[I.ctx.ghost.get('loop_calls_from', 0):] if x[0] == PSIM]
+            yield 'one catalog is simulated per iteration', z3.BoolVal(len(calls) == 1)
+            if calls:
+                ne = to_z3(calls[0][2]['num_events'])
+                n_obs = to_real(fr.locals['n_obs'])
+                if self.use_observed:
+                    yield 'the simulated catalog has the observed number of events', ne == trunc_real(I.ctx, n_obs)
+                else:
+                    E = to_real(fr.locals['expected_forecast_count'])
+                    yield 'the number of simulated events is one Poisson draw with the forecast mean', \
+                        ne == POISSON_DRAW(self.state_i, E)
+
+
+def plt_seeded(use_observed):
+    loop = PLTSeededLoop()
+    loop.use_observed = use_observed
+
+    class Seeded(_PLT):
+        case = 'seeded (numpy.random), %s' % ('observed number of events (CL form)' if use_observed else
+                                              'Poisson number of events (L-test form)')
+        loops = {0: loop}
+        normalize = False
+
+        @classmethod
+        def params(cls, c):
+            K, S = c.int('K'), c.int('num_simulations')
+            c.ctx.assume(z3.And(K >= 1, S >= 1))
+            F = c.arr('forecast', 'float64', n=K)
+            O = c.arr('observed', 'float64', n=K)
+            return dict(forecast_data=F, observed_data=O, num_simulations=S, random_numbers=None, seed=c.int('seed'),
+                        use_observed_counts=use_observed, verbose=False, normalize_likelihood=False, _n=c.int('n_events'))
+
+        @classmethod
+        def requires(cls, c, forecast_data, observed_data, num_simulations, random_numbers, seed, use_observed_counts, verbose,
+                     normalize_likelihood, _n):
+            F, O = forecast_data, observed_data
+            K = F.n
+            i = z3.Int('i!rq')
+            return [z3.ForAll([i], z3.Implies(z3.And(0 <= i, i < K), z3.And(F.f((i,)) >= 0, O.f((i,)) >= 0)), patterns=[F.f((i,))]),
+                    z3.ForAll([i], z3.Implies(z3.And(0 <= i, i < K), O.f((i,)) >= 0), patterns=[O.f((i,))]),
+                    rsum(lambda k: F.f((k,)), K) > 0, rsum(lambda k: O.f((k,)), K) == z3.ToReal(_n), _n >= 0]
+    Seeded.accepts = lambda *a, **k: False
+    Seeded.__name__ = 'PLT_seeded_%s' % use_observed
+    return Seeded
+
+
+_REG.add(plt_seeded(True))
+_REG.add(plt_seeded(False))
